@@ -550,8 +550,58 @@ def ob_overload_order():
     return [Result('C07/overload/declaration-order-kept', FAILED if bad else DISCHARGED, 'enum', time.time() - t0, (), det)]
 
 
+def ob_missing_return():
+    """a value-returning function whose body can complete without returning is rejected ("Missing return statement"), one that cannot is accepted,
+    and reachable statements after a construct are kept: a table of function bodies over every block construct, with the documented verdict
+    (README: a loop with a non-constant condition may run zero times; a constant-true loop without break does not complete; a try completes if its
+    body or its handler can; `if` completes if either branch can)"""
+    ast, DT, AT, TCE, CE, SPAN = mods()
+    from hidc.lexer import SourceCode
+    from hidc.parser import parse
+    t0 = time.time(); bad = []; n = 0
+    R = 'return 1;'
+    bodies = [
+        ('return 1;', True), ('', False), ('if (x > 0) { return 1; }', False), ('if (x > 0) { return 1; } else { return 2; }', True),
+        ('if (x > 0) { return 1; } return 2;', True), ('while (x > 0) { return 1; }', False), ('while (x > 0) { return 1; } return 2;', True),
+        ('while (true) { return 1; }', True), ('while (true) { if (x > 3) { return x; } x += 1; }', True), ('while (true) { if (x > 3) { break; } x += 1; }', False),
+        ('while (true) { if (x > 3) { break; } x += 1; } return x;', True), ('while (false) { return 1; }', False), ('while (1 > 2) { x += 1; } return x;', True),
+        ('for (int i = 0; i < x; i += 1) { return i; }', False), ('for (;;) { return 1; }', True), ('for (;;) { if (x > 1) { break; } } return 3;', True),
+        ('while (x > 0) { if (x > 5) { return 1; } else { return 2; } }', False), ('while (x > 0) { if (x > 5) { return 1; } else { return 2; } } return 0;', True),
+        ('{ return 1; }', True), ('{ { if (x > 0) { return 1; } } }', False), ('all_is_broken();', True), ('if (x > 0) { all_is_win(); } else { return 1; }', True),
+        ('while (true) { if (x > 3) { break; } if (x > 100) { x = 0; } x += 1; } return x;', True), ('while (true) { if (x > 3) { break; } if (x > 100) { x = 0; } x += 1; }', False),
+    ]
+    you_bodies = [
+        ('try { return 1; } undo { return 2; }', True), ('try { return 1; } undo { }', False), ('try { return !d(x); } undo { } return 0 - 1;', True),
+        ('try { return !d(x); } undo { }', False), ('try { return !d(x); } stop { } return 3;', True), ('try { !is_defeat(); } undo { return 1; }', True),
+        ('try { x += 1; } undo { return 1; }', False), ('try { while (true) { if (!d(x) > 2) { break; } } return 1; } stop { return 2; }', True),
+    ]
+    def verdict(src):
+        env = ast.Environment.empty()
+        try:
+            parse(SourceCode.from_string(src)).evaluate(env); return True, ''
+        except TCE as e:
+            return False, str(e)
+    for body, want in bodies:
+        n += 1
+        src = f'int f(int x) {{ {body} }}\nempty @is_you() {{ write(f(1)); }}'
+        got, why = verdict(src)
+        if got != want: bad.append({'function': f'int f(int x) {{ {body} }}', 'accepted': got, 'documented': want, 'diagnostic': why})
+    for body, want in you_bodies:
+        n += 1
+        src = f'int !d(int v) {{ if (v > 5) {{ !is_defeat(); }} return v; }}\nint @f(int x) {{ {body} }}\nempty @is_you() {{ write(@f(1)); }}'
+        got, why = verdict(src)
+        if got != want: bad.append({'function': f'int @f(int x) {{ {body} }}', 'accepted': got, 'documented': want, 'diagnostic': why})
+    det = {'formula': 'a value-returning function is accepted iff its body cannot complete without returning', 'bound': f'{n} function bodies over every block construct', 'count': n,
+           'functions': ['hidc.ast.program.FuncDeclaration.evaluate', 'hidc.ast.blocks.CodeBlock.evaluate', 'hidc.ast.blocks.LoopBlock.exit_modes', 'hidc.ast.blocks.IfBlock.exit_modes',
+                         'hidc.ast.blocks.TryBlock.exit_modes', 'hidc.ast.blocks.ExitMode.replace']}
+    if bad: det.update(model=bad[:5], replay={'reproduced': True, 'how': 'real parser and typechecker on the function', 'observed': bad[0]})
+    from hidv.oblig import BOUNDED_OK, BOUNDED_FAILED
+    return [Result('C07/missing-return/table', BOUNDED_FAILED if bad else BOUNDED_OK, 'bounded:corpus', time.time() - t0, (), det)]
+
+
 def tasks(tier):
     return [task(MOD, 'ob_lattice', ('C07',), label='py/types/lattice', cost=3),
             task(MOD, 'ob_statements', ('C07',), label='py/types/statements', cost=3),
             task(MOD, 'ob_overload', ('C07',), label='py/types/overload', cost=3),
-            task(MOD, 'ob_overload_order', ('C07', 'C18'), label='py/types/overload-order', cost=1)]
+            task(MOD, 'ob_overload_order', ('C07', 'C18'), label='py/types/overload-order', cost=1),
+            task(MOD, 'ob_missing_return', ('C07', 'C16'), label='py/types/missing-return', cost=1)]
